@@ -298,7 +298,7 @@ pub fn run(o: &mut Out, tier: &str, seed: u64) {
             (278_527, false), (278_528, true), (278_529, false), (300_000, true), (131_072, false), (262_144, false), (1_048_576, false)];
         let opt = [65_671usize, 65_673, 65_807, 65_809, 131_072 + 135, 131_071, 150_000, 262_143, 262_145, 1_048_575, 1_048_577, 1_048_560, 1_048_559, 1_048_561, 16_777_216 / 16];
         if thorough { for x in opt { lens.push((x, x % 2 == 0)); } for _ in 0..40 { lens.push((rng.range(10_241, 400_000) as usize, rng.chance(1, 4))); } lens.push((2_097_152 + 77, true)); }
-        else { for _ in 0..3 { lens.push((*rng.pick(&opt), false)); } lens.push((rng.range(10_241, 70_000) as usize, false)); lens.push((rng.range(70_000, 300_000) as usize, false)); }
+        else { for _ in 0..3 { lens.push((*rng.pick(&opt), false)); } lens.push((rng.range(10_241, 70_000) as usize, false)); lens.push((rng.range(70_000, 300_000) as usize, false)); lens.push((*rng.pick(&[1_048_575usize, 1_048_577, 1_048_560, 1_048_712, 1_048_576 + 65_536]), false)); }
         for (len, ws) in lens {
             o.stat(&format!("keccak.huge.{}", match len { 0..=60_000 => "10k..60k", 60_001..=70_000 => "~64KiB", 70_001..=270_000 => "70k..270k", 270_001..=310_000 => "272KiB..300k", _ => ">=1MiB" }));
             let m = content(&mut rng, len); msg_case(o, &m, "huge", ws);
